@@ -136,9 +136,9 @@ def audit():
     # "'BB.Props.C07.hi_range' depends on axioms: [propext, Classical.choice]"
     # "'X' does not depend on any axioms"
     text = out.replace('\n ', ' ')
-    for m in re.finditer(r"'([^']+)' depends on axioms: \[([^\]]*)\]", text):
+    for m in re.finditer(r"'(\S+)' depends on axioms: \[([^\]]*)\]", text):
         res[m.group(1)] = set(a.strip() for a in m.group(2).split(',') if a.strip())
-    for m in re.finditer(r"'([^']+)' does not depend on any axioms", text):
+    for m in re.finditer(r"'(\S+)' does not depend on any axioms", text):
         res[m.group(1)] = set()
     _build_cache['audit'] = res
     return res
